@@ -335,6 +335,27 @@ def generate(run_index, seed, tier):
         cur = list(dict.fromkeys(cur2))      # an overwritten column keeps its place: no duplicate names
         if len([c for c in cur if c not in ("onset", "duration")]) == 0 and len(cur) < 2:
             break
+    if ops and ops[0]["operation"] == "merge_consecutive":
+        # make the first operation bite: a run of rows carrying its event code (and equal match columns) in every table, one of
+        # the merged-away rows without a duration (own generator: the main stream of choices is left as it was)
+        g2 = Gen(seed ^ 0x5EED17)
+        p0 = ops[0]["parameters"]
+        for t in tables:
+            c = p0["column_name"]
+            if c not in t["columns"] or len(t["rows"]) < 2 or not g2.chance(0.7):
+                continue
+            ci, di = t["columns"].index(c), t["columns"].index("duration")
+            i = g2.randrange(1, len(t["rows"]))
+            n_run = g2.pick([2, 2, 3])
+            for j in range(max(0, i - n_run + 1), i + 1):
+                t["rows"][j][ci] = str(p0["event_code"])
+                for mc in p0.get("match_columns", []):
+                    if mc in t["columns"]:
+                        t["rows"][j][t["columns"].index(mc)] = t["rows"][i][t["columns"].index(mc)]
+            if g2.chance(0.6):
+                t["rows"][i][di] = "n/a"
+            elif g2.chance(0.5):
+                t["rows"][max(0, i - n_run + 1)][di] = "7.5"       # the anchor ends last
     sc = {"ops": ops, "tables": tables, "stats": stats}
     r = run_index % 12
     if r in (3, 9):
